@@ -786,10 +786,19 @@ def cl_forall(ex, args, kw, st):
             guard.append(v >= num_term(lo))
         if hi is not None:
             guard.append(v < num_term(hi))
+    if skolem:
+        from .symexec import SINK
+        if SINK and guard:
+            SINK[-1].guard_stack.append(z3.And(*guard))
+            try:
+                body = to_bool(fn.fn(*vs))
+            finally:
+                SINK[-1].guard_stack.pop()
+        else:
+            body = to_bool(fn.fn(*vs))
+        return z3.Implies(z3.And(*guard), body) if guard else body
     body = to_bool(fn.fn(*vs))
     f = z3.Implies(z3.And(*guard), body) if guard else body
-    if skolem:
-        return f
     return z3.ForAll(vs, f)
 
 
